@@ -42,7 +42,7 @@ def checkDirectionOf : List (List DirTok × ℕ × ℕ) → DirTok → ℕ → P
 variable {K : Type} [Field K] [LinearOrder K]
 
 /-- Result of one in-place method call. -/
-structure Step (K : Type) where
+structure ReStep (K : Type) where
   obj : Obj K
   err : Option PyErr
   /-- the Python call returned the receiver (`return self`) -/
@@ -66,7 +66,7 @@ def reverseSpec (o : Obj K) (dir : ℕ) : Obj K :=
 
 /-- `SplineObject.reverse(direction)` with the direction as spelled by the caller.
     `specMode = true` replaces the code's control-point flip by `reverseSpec`. -/
-def reverseTok (o : Obj K) (d : DirTok) (specMode : Bool := false) : Step K :=
+def reverseTok (o : Obj K) (d : DirTok) (specMode : Bool := false) : ReStep K :=
   match checkDirection d o.pardimB with
   | .error e => { obj := o, err := some e, returnsSelf := false }
   | .ok dir => { obj := if specMode then o.reverseSpec dir else o.reverse dir, err := none, returnsSelf := true }
@@ -74,7 +74,7 @@ def reverseTok (o : Obj K) (d : DirTok) (specMode : Bool := false) : Step K :=
 /-- `SplineObject.swap(dir1, dir2)`: "silently passes for curves" — with a bare `return`, i.e. the
     call returns `None`, not the receiver, and the direction arguments are not even validated.
     `specMode = true` returns the receiver. -/
-def swapTok (o : Obj K) (d1 d2 : DirTok) (specMode : Bool := false) : Step K :=
+def swapTok (o : Obj K) (d1 d2 : DirTok) (specMode : Bool := false) : ReStep K :=
   if o.pardimB = 1 then { obj := o, err := none, returnsSelf := specMode } else
   match checkDirection d1 o.pardimB with
   | .error e => { obj := o, err := some e, returnsSelf := false }
@@ -104,13 +104,13 @@ def reparamLoop (o : Obj K) (dir : ℕ) : List (List K) → Obj K × Option PyEr
     | .error e => (o, some e)
 
 /-- `reparam(*args)` (no `direction` keyword): the arguments are padded with `(0, 1)`. -/
-def reparamArgs (o : Obj K) (args : List (List K)) : Step K :=
+def reparamArgs (o : Obj K) (args : List (List K)) : ReStep K :=
   let padded := args ++ List.replicate (o.pardimB - args.length) [0, 1]
   let (o', e) := o.reparamLoop 0 padded
   { obj := o', err := e, returnsSelf := e.isNone }
 
 /-- `reparam(*args, direction=d)`: only `args[0]` is looked at; no argument means `(0, 1)`. -/
-def reparamDirTok (o : Obj K) (d : DirTok) (args : List (List K)) : Step K :=
+def reparamDirTok (o : Obj K) (d : DirTok) (args : List (List K)) : ReStep K :=
   match checkDirection d o.pardimB with
   | .error e => { obj := o, err := some e, returnsSelf := false }
   | .ok dir =>
@@ -129,7 +129,7 @@ inductive ReOp (K : Type) where
   | reparamDir (d : DirTok) (args : List (List K))
   deriving Inhabited
 
-def ReOp.apply (specReverse specSwap : Bool) (o : Obj K) : ReOp K → Step K
+def ReOp.apply (specReverse specSwap : Bool) (o : Obj K) : ReOp K → ReStep K
   | .reverse d => o.reverseTok d specReverse
   | .swap d1 d2 => o.swapTok d1 d2 specSwap
   | .reparam args => o.reparamArgs args
@@ -138,10 +138,10 @@ def ReOp.apply (specReverse specSwap : Bool) (o : Obj K) : ReOp K → Step K
 /-- Run a history on one receiver; the state after every call (also after a failed one).
     `specReverse` / `specSwap` = follow the property instead of the code for the two known defects
     (periodic `reverse` flips only; `swap` on a curve returns `None`). -/
-def runHistory (specReverse specSwap : Bool) : Obj K → List (ReOp K) → List (Step K)
+def runReHistory (specReverse specSwap : Bool) : Obj K → List (ReOp K) → List (ReStep K)
   | _, [] => []
   | o, op :: rest =>
     let st := op.apply specReverse specSwap o
-    st :: runHistory specReverse specSwap st.obj rest
+    st :: runReHistory specReverse specSwap st.obj rest
 
 end Splipy
